@@ -1,0 +1,79 @@
+//go:build verif
+// +build verif
+
+package bal_slb
+
+import "github.com/bfenetworks/bfe/bfe_balance/backend"
+
+// Hooks for the out-of-tree verification harness of property C05 (build tag verif).  Add-only.
+
+// VerifC05State returns brr.next and, per backend in list order, AddrInfo, weight and current.
+func (brr *BalanceRR) VerifC05State() (next int, addrs []string, weights []int, currents []int) {
+	brr.Lock()
+	defer brr.Unlock()
+	for _, b := range brr.backends {
+		addrs = append(addrs, b.backend.AddrInfo)
+		weights = append(weights, b.weight)
+		currents = append(currents, b.current)
+	}
+	return brr.next, addrs, weights, currents
+}
+
+// VerifC05Candidates runs leastConnsBalance under the lock and returns the AddrInfo of the candidates
+// (nil, false when it reports an error).
+func (brr *BalanceRR) VerifC05Candidates() ([]string, bool) {
+	brr.Lock()
+	defer brr.Unlock()
+	c, err := leastConnsBalance(brr.backends)
+	if err != nil {
+		return nil, false
+	}
+	out := make([]string, 0, len(c))
+	for _, b := range c {
+		out = append(out, b.backend.AddrInfo)
+	}
+	return out, true
+}
+
+// VerifC05SetConnNum brings the connection counter of the backend at list position i to n
+// using only the public IncConnNum / DecConnNum.
+func (brr *BalanceRR) VerifC05SetConnNum(i int, n int) bool {
+	brr.Lock()
+	if i < 0 || i >= len(brr.backends) {
+		brr.Unlock()
+		return false
+	}
+	b := brr.backends[i].backend
+	brr.Unlock()
+	for b.ConnNum() < n {
+		b.IncConnNum()
+	}
+	for b.ConnNum() > n {
+		b.DecConnNum()
+	}
+	return true
+}
+
+// VerifC05SetAvail sets the availability of the backend at list position i.
+func (brr *BalanceRR) VerifC05SetAvail(i int, avail bool) bool {
+	brr.Lock()
+	if i < 0 || i >= len(brr.backends) {
+		brr.Unlock()
+		return false
+	}
+	b := brr.backends[i].backend
+	brr.Unlock()
+	b.SetAvail(avail)
+	return true
+}
+
+// VerifC05Backends returns the *BfeBackend objects in list order.
+func (brr *BalanceRR) VerifC05Backends() []*backend.BfeBackend {
+	brr.Lock()
+	defer brr.Unlock()
+	out := make([]*backend.BfeBackend, 0, len(brr.backends))
+	for _, b := range brr.backends {
+		out = append(out, b.backend)
+	}
+	return out
+}
